@@ -1,7 +1,7 @@
 (* C11 Assembled EtherCAT frames are well-formed with exact datagram positions.
    Model: Ecat/Frame.v (Packet.append/assemble, constants regenerated from the
    source).  Specification: the independent parser parse_frame (ETG.1000.4). *)
-From Verif Require Import Ecat.Frame Ecat.Frame_proofs.
+From Verif Require Import Ecat.Frame Ecat.Frame_proofs Ecat.Sterile_proofs.
 
 (* every accepted, non-empty datagram sequence assembles to a frame that the
    independent parser reads back as: header length = payload length, the
@@ -25,6 +25,17 @@ Theorem C11_rejects : forall p d, append p d = None <->
    zlen (p_data p) > Packet_append_maxcount).
 Proof. exact append_rejects. Qed.
 Print Assumptions C11_rejects.
+
+(* the sterile copy IS the frame assembled from the same datagrams with the
+   command of every write datagram replaced by NOP (so, by C11_wellformed, it
+   is a well-formed frame differing only in those command bytes) *)
+Theorem C11_sterile : forall ops s index ethertype f,
+  s_appends empty_s ops = Some s -> assemble (sp s) index ethertype = Some f ->
+  sterile s index ethertype =
+    assemble {| p_data := map nop_if ops; p_size := p_size (sp s) |} index ethertype /\
+  exists f', sterile s index ethertype = Some f' /\ length f' = length f.
+Proof. exact sterile_is_nop. Qed.
+Print Assumptions C11_sterile.
 
 (* the limits the source states are the ones the theorem is about *)
 Example C11_limits : Packet_MAXSIZE = 1500 /\ Packet_minpayload = 46 /\ Packet_PACKET_HEADER = 16.
